@@ -40,6 +40,9 @@ func init() {
 			{ID: "R04n", Floor: 1, Doc: "views of the file are positioned at 0, at the pragma size (the header slot), or at an offset taken from the header: no NewOffsetReadSeeker / NewOffsetWriter / io.NewSectionReader of the library is given another constant — the payload a store reads must start where the store's writer put it (Header.DataOffset, which includes the data padding)", Run: ruleR04n},
 			{ID: "R04o", Floor: 9, Doc: "a store does not verify on Get what Put never verified: only the verifying readers hash block contents (= R02a)", Run: ruleR02a},
 			{ID: "R04p", Floor: 8, Doc: "a put writes the whole section: the framing routines write length prefix, CID and data unabridged (= R01b)", Run: ruleR01b},
+			{ID: "R04q", Floor: 1, Doc: "methods that do not write to their receiver today stay so, sorting a slice of the receiver in place included (CarHeader.Matches compares, it does not reorder the caller's roots) (= R08o)", Run: ruleR08o},
+			{ID: "R04r", Floor: 3, Doc: "an option value is compared where the pinned tree compares it: a relational comparison of an Options field (or of a parameter named after one) in a function that has none today applies a limit where it does not belong — MaxIndexCidSize is checked by ShouldPut after the identity rule, not before it", Run: ruleR04r},
+			{ID: "R04s", Floor: 3, Doc: "a reopened store has the roots that are in the file: Resume refuses other roots before it touches anything (= R12a)", Run: ruleR12a},
 		},
 	})
 }
